@@ -7,6 +7,7 @@ import (
 	_ "verifharness/props/c05"
 	_ "verifharness/props/c08"
 	_ "verifharness/props/c09"
+	_ "verifharness/props/c11"
 )
 
 func main() { mc.Main() }
